@@ -1,6 +1,7 @@
 import Srctools.Wire
 import Srctools.Model.C14
 import Srctools.Model.C14Kv2
+import Srctools.Model.C14Kv2Wf
 import Srctools.Gen.Dmx
 import Srctools.Gen.Tok
 /-! Driver for the DMX model (C14).
@@ -9,7 +10,7 @@ requests (byte strings and texts are arrays of numbers):
   {"op":"codes"}                                     → [[type, arr, code, decodedType|-1, decodedArr]…]
   {"op":"encode","v":n,"uni":b,"g":G}                → {"bytes":[…]} | {"err":[id,arg]}
   {"op":"decode","v":n,"uni":b,"bytes":[…]}          → {"g":G} | {"err":[id,arg]}
-  {"op":"kv2","flat":b,"cull":b,"g":G2}              → {"text":[…]} | {"err":…}
+  {"op":"kv2","flat":b,"cull":b,"g":G2,"fold":[[cp,[cp…]]…]} → {"text":[…],"hyp":b (hypotheses of C14_kv2),"orderOK":b,"order":[…]}
   {"op":"kv2parse","text":[cp…],"fold":[[cp,[cp…]]…]}→ {"g":G2'} | {"err":…}
   {"op":"number","g":G (any order; refs are positions),"root":n} → {"order":[loc…],"g":G indexed,"closed":b}
   {"op":"kv1","t":K,"fold":[[[cp…],[cp…]]…]}         → {"e":E,"back":K}
@@ -198,7 +199,13 @@ def handle (j : Json) : Except String Json := do
     let flat ← j.getObjValAs? Bool "flat"
     let cull ← j.getObjValAs? Bool "cull"
     let g ← tgraphOf (← j.getObjVal? "g")
-    pure (Json.mkObj [("text", Wire.codesOfStr (Kv2.emit Gen.Tok.tables T flat cull g))])
+    let f ← charFoldOf (← j.getObjVal? "fold")
+    -- the decidable hypotheses of C14_kv2 on this graph
+    let hyp := Kv2.graphWf T (fun s => s.flatMap f) g flat && Kv2.uuidsOK g && Kv2.nestAllOK g flat &&
+      !g.elems.isEmpty && (Kv2.nameChars T).all (fun c => f c == [c])
+    pure (Json.mkObj [("text", Wire.codesOfStr (Kv2.emit Gen.Tok.tables T flat cull g)),
+      ("hyp", Json.bool hyp), ("orderOK", Json.bool (Kv2.orderOK g flat)),
+      ("order", Wire.ofNatList (Kv2.order g flat))])
   | "kv2parse" =>
     let s ← Wire.strOfCodes (← j.getObjVal? "text")
     let f ← charFoldOf (← j.getObjVal? "fold")
